@@ -275,15 +275,18 @@ def task_interpolate_wrapper():
     return col.pack()
 
 
-def task_interpolate_to_grid():
-    col = ob.Collector(PROP, 'models.Model.interpolate_to_grid')
+def task_interpolate_to_grid(prop=None):
+    from .cxutil import explore_with_history
+    col = ob.Collector(prop or PROP, 'models.Model.interpolate_to_grid')
     col.default_replay = replay
     col.function('models.Model.interpolate_to_grid')
     res = []
     names = ['Conductivity', 'LgConductivity', 'LnConductivity', 'Resistivity', 'LgResistivity', 'LnResistivity']
+    own = cx.Obj('TensorMesh', {'__id__': 'own'})
+    grids = {True: (own, own), False: (own, cx.Obj('TensorMesh', {'__id__': 'other'}))}
     for nm in names:
         for same in (False, True):
-            def mk(ctx, nm=nm, same=same):
+            def mk(ctx, left=(), nm=nm, same=same):
                 lg = []
 
                 def interp(it, args, kw, node):
@@ -291,16 +294,18 @@ def task_interpolate_to_grid():
                     return cx.NDArr(cx.Store('interpolated'))
 
                 def model(it, args, kw, node):
-                    lg.append(('Model', args, dict(kw)))
-                    return cx.Obj('Model', {'__new__': True})
+                    m = cx.Obj('Model', {'__new__': True, 'grid': args[0] if args else kw.get('grid')})
+                    lg.append(('Model', args, dict(kw), m))
+                    return m
                 ctx.summaries.update({'maps.interpolate': interp, 'models.Model': model})
-                g_self = cx.Obj('TensorMesh', {'__id__': 'own'})
-                g_new = g_self if same else cx.Obj('TensorMesh', {'__id__': 'other'})
+                g_self, g_new = grids[same]          # the same two grids in every exploration: a later call may ask for the grid of an earlier one
                 px = cx.NDArr(cx.Store('property_x'))
-                self = cx.Obj('Model', dict(grid=g_self, map=cx.Obj('Map' + nm, dict(name=nm)), property_x=px, _def_properties=['property_x']), mod='models')
+                self = cx.Obj('Model', dict(grid=g_self, map=cx.Obj('Map' + nm, dict(name=nm)), property_x=px, _def_properties=['property_x'], __strict__=True), mod='models')
+                for who, attr, value in left:
+                    self.fields[attr] = value          # what an earlier call left on the model (the property arrays meanwhile edited in place)
                 return [g_new], {}, dict(__self__=self, lg=lg, nm=nm, same=same, g_new=g_new, px=px)
-            ctx_opts = {}
-            res += cx.run_function('models.Model.interpolate_to_grid', mk, summaries={}, opts=ctx_opts)
+            a, b = explore_with_history('models.Model.interpolate_to_grid', mk, lambda st: dict(model=st['__self__']))
+            res += a + b
 
     def ok(r):
         if r.outcome != 'return':
@@ -317,6 +322,18 @@ def task_interpolate_to_grid():
         return kw.get('method') == 'volume' and kw.get('log') is (not r.state['nm'].startswith('L')) and kw.get('values') is r.state['px'] \
             and kw.get('grid') is r.state['__self__'].fields['grid'] and kw.get('xi') is r.state['g_new'] and kw.get('extrapolate') is True
     clause(col, 'volume_averaging_in_log_mode_exactly_for_the_linear_mappings__equal_grids_return_the_model_itself', res, ok, sample=True)
+
+    def fresh(r):
+        # the model handed back is the model itself (equal grids) or a Model assembled IN THIS CALL from what the interpolation of the CURRENT
+        # property arrays returned -- whatever an earlier call left on the model
+        if r.outcome != 'return':
+            return None
+        if r.value is r.state['__self__']:
+            return True
+        made = [x for x in r.state['lg'] if isinstance(x, tuple) and x[0] == 'Model']
+        calls = [x for x in r.state['lg'] if isinstance(x, dict)]
+        return any(r.value is x[3] for x in made) and len(calls) >= 1 and all(c.get('values') is r.state['px'] for c in calls)
+    clause(col, 'model_handed_back_is_the_model_itself_or_one_assembled_in_this_call_from_the_current_property_arrays__whatever_an_earlier_call_left_behind', res, fresh)
     return col.pack()
 
 
